@@ -362,6 +362,23 @@ Section C19.
     unfold idx. simpl nth_error. simpl bind. rewrite A, B, C, D, E. reflexivity.
   Qed.
 
+  (* "texttable.X" for a dot-free X - whatever X spells, a sub-package keyword
+     included - is the text table with SetDecorationNamed(X): the second section
+     is a decoration name, never a format *)
+  Lemma texttable_qualified reg x :
+    nodot x -> wrap' reg (s_texttable ++ DOT :: x) = Ok (RText (text_named reg x)).
+  Proof.
+    intros Nd. unfold wrap.
+    assert (Nt : nodot s_texttable) by (apply nodot_forallb; vm_compute; reflexivity).
+    rewrite (split_dot_app _ x Nt), (split_dot_nodot x Nd).
+    unfold idx. simpl nth_error. simpl bind.
+    rewrite (lower_five s_texttable) by (left; reflexivity).
+    change (bytes_eqb s_texttable s_csv) with false. change (bytes_eqb s_texttable s_html) with false.
+    change (bytes_eqb s_texttable s_markdown) with false. change (bytes_eqb s_texttable s_json) with false.
+    change (bytes_eqb s_texttable s_texttable) with true. cbv iota.
+    reflexivity.
+  Qed.
+
   Lemma texttable_default reg : wrap' reg s_texttable = Ok (RText text_wrap).
   Proof.
     unfold wrap. change (split_dot s_texttable) with [s_texttable].
